@@ -1415,8 +1415,11 @@ class _Streamer(mcasm.Streamer):
         if self._state.current_block.size:
             self._split_block(add_fallthrough=True)
 
-        self._state.current_section.alignment[self._state.current_block] = (
-            alignment
+        # Several alignment directives can apply to the same (still empty)
+        # block; the strictest one decides.
+        alignments = self._state.current_section.alignment
+        alignments[self._state.current_block] = max(
+            alignment, alignments.get(self._state.current_block, 1)
         )
 
     @_convert_errors_and_return(True)
